@@ -274,7 +274,16 @@ def snapshot_definition(node: SymbolNode | None, common: SymbolSnapshot) -> Symb
             setter_type,  # multi-part properties are stored as OverloadedFuncDef
         )
     elif isinstance(node, Var):
-        return ("Var", common, snapshot_optional_type(node.type), node.is_final)
+        return (
+            "Var",
+            common,
+            snapshot_optional_type(node.type),
+            node.is_final,
+            # These decide whether an assignment through an instance is an error.
+            node.is_classvar,
+            node.is_property,
+            node.is_settable_property,
+        )
     elif isinstance(node, Decorator):
         # Note that decorated methods are represented by Decorator instances in
         # a symbol table since we need to preserve information about the
